@@ -27,6 +27,7 @@ import (
 	"github.com/thought-machine/please/src/cmap"
 	"github.com/thought-machine/please/src/fs"
 	"github.com/thought-machine/please/src/process"
+	"github.com/thought-machine/please/src/verifhook"
 )
 
 type ParseMode uint8
@@ -612,6 +613,9 @@ func (state *BuildState) LogBuildError(label BuildLabel, status BuildResultStatu
 // logResult logs a build result directly to the state's queue.
 func (state *BuildState) logResult(result *BuildResult) {
 	result.Time = time.Now()
+	if verifhook.Enabled {
+		verifhook.Event("Report", "label", result.Label.String(), "status", result.Status.Category(), "code", fmt.Sprint(int(result.Status)))
+	}
 	state.progress.internalResults <- result
 	if result.Status.IsFailure() {
 		state.progress.failed.Store(true)
